@@ -82,7 +82,12 @@ class Compiler:
             from . import closures
 
             closures.CURRENT = self.rt
-            func = (closures.make_unary_async if is_async else closures.make_unary)(bkey)
+            if "salt" in node:
+                tag = node["salt_base"] + ":" + repr(node["salt"])
+                self.rt.node_specs.setdefault(tag, node)
+                func = (closures.make_salted_async if is_async else closures.make_salted)(node["salt_base"], node["salt"])
+            else:
+                func = (closures.make_unary_async if is_async else closures.make_unary)(bkey)
             return self._make_fn(node, func, False)
         deco = self.decorators and bkey == node["name"]
         fname = node["name"] if deco else f"f_{bkey}"
